@@ -38,6 +38,7 @@ Inductive lex_err :=
 | EHex                  (* invalid hexadecimal character sequence *)
 | EUnicode              (* invalid Unicode escape sequence *)
 | EU0000                (* \u0000 cannot be converted to text *)
+| EInvalidChar          (* invalid character %q: a rune >= U+E000 (firstTokenNumber) where an operator could start *)
 | EOutOfFuel.           (* model artefact; unreachable (lex_total) *)
 
 Inductive lres (A : Type) : Type := LOk (a : A) | LErr (e : lex_err).
@@ -442,31 +443,15 @@ Fixpoint lex_tok (fuel : nat) (ch : Z) (rest : list Z) : lres (option token * Z 
           let* (k, txt, c', r') := scan_number c r true in
           LOk (Some (mktok k (str_of_bytes txt)), c', r')
         else LOk (Some (mktok (TChar 46) "."), c, r)
+      else if 57344 <=? ch then LErr EInvalidChar   (* ch >= firstTokenNumber *)
       else
         let* (t, c, r) := scan_operator ch rest in LOk (Some t, c, r)
   end.
 
-(* goyacc's pathlex1: a returned "char" in the private range 57346..57393 is
-   taken for the token with that number. *)
-Definition tok_table : list tkind :=
-  [ TKw KTo; TKw KNull; TKw KTrue; TKw KFalse; TKw KIs; TKw KUnknown; TKw KExists;
-    TIdent; TString; TNumeric; TInt; TVariable;
-    TOr; TAnd; TNot;
-    TLess; TLessEq; TEqual; TNotEqual; TGreaterEq; TGreater;
-    TAny; TKw KStrict; TKw KLax; TKw KLast; TKw KStarts; TKw KWith; TKw KLikeRegex; TKw KFlag;
-    TKw KAbs; TKw KSize; TKw KType; TKw KFloor; TKw KDouble; TKw KCeiling; TKw KKeyvalue;
-    TKw KDatetime;
-    TKw KBigint; TKw KBoolean; TKw KDate; TKw KDecimal; TKw KInteger; TKw KNumber;
-    TKw KStringfunc; TKw KTime; TKw KTimeTz; TKw KTimestamp; TKw KTimestampTz ].
-
-Definition norm_tok (t : token) : token :=
-  match tk t with
-  | TChar c =>
-      if (57346 <=? c) && (c <=? 57393)
-      then mktok (nth (Z.to_nat (c - 57346)) tok_table (TChar c)) (ttext t)
-      else t
-  | _ => t
-  end.
+(* goyacc's pathlex1 takes a returned "char" in 57346..57393 for the token
+   with that number.  Since Lex rejects every rune >= 0xE000 that would reach
+   scanOperator, and the other single-rune tokens are '$', '/', '.', no such
+   char is ever returned: there is nothing to remap. *)
 
 (* The whole token stream: the tokens up to end of input, or up to the first
    error, which is then the last element (TErr e). *)
@@ -479,7 +464,7 @@ Fixpoint lex_all (fuel : nat) (ch : Z) (rest : list Z) : list token :=
       match lex_tok (S (length rest)) ch rest with
       | LErr e => [err_tok e]
       | LOk (None, _, _) => []
-      | LOk (Some t, ch', rest') => norm_tok t :: lex_all f ch' rest'
+      | LOk (Some t, ch', rest') => t :: lex_all f ch' rest'
       end
   end.
 
